@@ -18,3 +18,8 @@ chk("C18", "exploration",
     "crash classifier on child stderr/exit; acceptance = exit status of `pint config`",
     "runtime crash/hang monitor over child processes (load verdict vs later lint)",
     "DESIGN.md §3 C18")
+chk("C08", "exploration",
+    "relational two-run monitor on the real binary: a reference run of a configuration that instantiates every check kind (24+ of 27 reporters fire, against an engine-backed fake Prometheus) is compared, as a multiset of H1-dumped reports, with runs that differ by exactly one switch - all 27 names x {checks.disabled, --disabled, rule.disable, --enabled, checks.enabled} and --offline vs the online list by name. Exhaustive over names and forms, sampled over configurations.",
+    "the reference run is the oracle's baseline; names with a rule{enable} override are don't-care for the global forms (documented override); rule/dependency never fires under lint",
+    "relational (metamorphic) monitor over H1 report dumps of pint child processes",
+    "DESIGN.md §3 C08")
